@@ -11,7 +11,7 @@ RULES = {
     'cedge': 'literal operands on both sides of every RVC operand-set boundary (7.4k instructions)',
     'pseudo': 'every simple pseudo-instruction over register choices incl. x0/x2/rd=rs; pseudo-branches at 11 distances',
     'rand': 'seeded random programs of 3-12 items over a 64-item alphabet (label arithmetic in instructions and data, explicit c.* source instructions, li of every size class, aligns 2/3/4/5/8/16, transfers of every form), a label at every gap, random targets (quick 300, thorough 6000; VERIF_SEED)',
-    'hilo': '%hi / %lo of literals, constants and %position expressions: 9 upper-field classes x 8 low-field classes in the unsigned and the negative spelling, plus -2**31, -1, 2**32-1; consumed by lui+addi, lui+lw/sw, jalr, li; every program must assemble',
+    'hilo': '%hi / %lo of literals, constants and %position expressions: 9 upper-field classes x 15 low-field classes (incl. every offset bit of c.lw / c.sw) in the unsigned and the negative spelling, plus -2**31, -1, 2**32-1; consumed by lui+addi, lui+lw/sw, jalr, li; every program must assemble',
     'data': 'data directives at the ends of every width, pack formats, ASCII strings with escapes',
 }
 
